@@ -1814,3 +1814,113 @@ fn replay(sub: &str, v: &Value) -> Result<Outcome, String> {
     }
     Ok(o)
 }
+
+// ---------------------------------------------------------------- coverage-guided tier
+
+/// Clamp a byte-decoded scenario (engine::bytesde) into exactly the domain of `strategy()` (sub
+/// `lifecycle`).  The generator's plan class (none / delay within the handshake-safe bound /
+/// faulty), which has no field of its own, is taken from the decoded `plan.max_hold`, a field all
+/// three classes derive from (threshold, budget); `strict` is forced to false, `blackhole` to None.
+pub fn fuzz_sanitize(sc: &mut Scenario) -> bool {
+    sc.retx_threshold = 2 + sc.retx_threshold % 3;
+    sc.retx_max = 1 + sc.retx_max % 4;
+    sc.backlog = [1u32, 2, 3, 1024][(sc.backlog % 4) as usize];
+    for e in sc.eph_len.iter_mut() {
+        *e = [1u16, 2, 3, 5][(*e % 4) as usize];
+    }
+    sc.strict = false;
+    let (t, m) = (sc.retx_threshold, sc.retx_max);
+    // acts: one first action + 3..36 more; every action in act_strategy's ranges (the weighted
+    // `first` alternative, a Listen, is inside act_strategy's domain too)
+    sc.acts.truncate(36);
+    while sc.acts.len() < 4 {
+        sc.acts.push(Act::Rounds { n: 1 });
+    }
+    for a in sc.acts.iter_mut() {
+        match a {
+            Act::Listen { h, port, .. } => {
+                *h %= 2;
+                *port %= 2;
+            }
+            Act::DropListener { h, l } | Act::Accept { h, l } => {
+                *h %= 2;
+                *l %= 3;
+            }
+            Act::Connect { h, to, port, .. } => {
+                *h %= 2;
+                if let Some(x) = to {
+                    *x %= 2;
+                }
+                *port %= 2;
+            }
+            Act::ConnectL { l, .. } => *l %= 3,
+            Act::Cancel { h, c } => {
+                *h %= 2;
+                *c %= 4;
+            }
+            Act::Write { h, c, n } => {
+                *h %= 2;
+                *c %= 8;
+                *n = 1 + *n % 39;
+            }
+            Act::Read { h, c, n } => {
+                *h %= 2;
+                *c %= 8;
+                *n = 1 + *n % 59;
+            }
+            Act::Shutdown { h, c } | Act::Drop { h, c } => {
+                *h %= 2;
+                *c %= 8;
+            }
+            Act::Rounds { n } => *n = 1 + *n % 3,
+            Act::Quiesce => {}
+        }
+    }
+    // plan_strategy(t, m)
+    let hl = h_live(t, m);
+    let class = match sc.plan.max_hold % 11 {
+        0..=2 => 0,
+        3..=5 if hl >= 1 => 1,
+        3..=5 => 0,
+        _ => 2,
+    };
+    if class == 0 {
+        sc.plan = FatePlan::default();
+        sc.drop_rst = false;
+        return true;
+    }
+    let drops = class == 2;
+    let mh = if drops { 2 * t } else { hl };
+    let fate = |f: Fate| match f {
+        Fate::Hold(k) => Fate::Hold(1 + k % mh.max(1)),
+        Fate::Drop if !drops => Fate::Now,
+        x => x,
+    };
+    sc.plan.by_id.truncate(39);
+    for f in sc.plan.by_id.iter_mut() {
+        *f = fate(*f);
+    }
+    sc.plan.by_kind.truncate(if drops { 3 } else { 2 });
+    for (k, n, f) in sc.plan.by_kind.iter_mut() {
+        *k = match *k {
+            Kind::WindowUpdate => Kind::PureAck,
+            Kind::Udp => Kind::Rst,
+            x => x,
+        };
+        *n %= 3;
+        *f = fate(*f);
+    }
+    sc.plan.prio.truncate(39);
+    for p in sc.plan.prio.iter_mut() {
+        *p %= 3;
+    }
+    sc.plan.max_hold = mh;
+    sc.plan.blackhole = None;
+    if drops {
+        sc.plan.max_drops %= m + 1;
+    } else {
+        sc.plan.max_drops = 0;
+        sc.drop_rst = false;
+    }
+    true
+}
